@@ -21,6 +21,9 @@ type mcase struct {
 	Sender string // "M" | "S": whose wire id the envelope carries
 	Proto  bool   // must travel through the protobuf serializer
 	Mut    bool   // false: the unmutated well-formed base
+	// Neutral (with Control): where the unmutated proposal would be acceptable, the statement leaves
+	// open whether this mutation must be dropped.
+	Neutral bool
 	// Control reports (proposals only) whether the victim's situation makes the unmutated
 	// proposal acceptable, i.e. the proposal handler MUST be invoked.
 	Control func(sc *mScene) bool
@@ -41,7 +44,7 @@ func lockedAt(pt string) int {
 		return 1
 	case "sub2", "await-subsettle2", "hub-settle2":
 		return 2
-	case "hub-settle":
+	case "hub-settle", "hub-settle-quiet":
 		return 1
 	}
 	return 0
@@ -125,6 +128,19 @@ type propMut struct {
 	On    string // "", "peers" (ledger, virtual), "ledger", "sub", "virtual"
 	F     func(sc *mScene, x mIdent, p client.ChannelProposal)
 	C12   bool // only in C12's catalogue (not a validity condition named by C08's statement)
+	// Neutral: the statement does not say whether the proposal must be dropped (where the unmutated
+	// proposal would be acceptable): delivered and recorded, no expectation about the handler.
+	Neutral bool
+}
+
+// setSplit sets initial balances and funding agreement independently (the constructors refuse
+// or normalise such proposals: the fields of the message are set by hand).
+func setSplit(b *client.BaseChannelProposal, bals, fa []int64) {
+	setBals(b, bals)
+	b.FundingAgreement = make(channel.Balances, 1)
+	for _, v := range fa {
+		b.FundingAgreement[0] = append(b.FundingAgreement[0], mBig(v))
+	}
 }
 
 func setBals(b *client.BaseChannelProposal, rows ...[]int64) {
@@ -217,6 +233,24 @@ var propMuts = []propMut{
 	}},
 	{Name: "funds-above-parent-0", On: "sub", F: func(_ *mScene, _ mIdent, p client.ChannelProposal) { setBals(p.Base(), []int64{12, 3}) }},
 	{Name: "funds-above-parent-1", On: "sub", F: func(_ *mScene, _ mIdent, p client.ChannelProposal) { setBals(p.Base(), []int64{2, 12}) }},
+	// balances and funding agreement disagree: the sub-channel's funds are its initial balances
+	{Name: "funds-above-parent-fa-small", On: "sub", F: func(_ *mScene, _ mIdent, p client.ChannelProposal) {
+		setSplit(p.Base(), []int64{1000, 1000}, []int64{1, 1})
+	}},
+	{Name: "funds-above-parent-0-fa-base", On: "sub", F: func(_ *mScene, _ mIdent, p client.ChannelProposal) {
+		setSplit(p.Base(), []int64{12, 4}, []int64{2, 4})
+	}},
+	{Name: "funds-above-parent-1-fa-base", On: "sub", F: func(_ *mScene, _ mIdent, p client.ChannelProposal) {
+		setSplit(p.Base(), []int64{2, 12}, []int64{2, 4})
+	}},
+	// the other direction: the sub-channel itself fits, only the (for sub-channels unused) funding
+	// agreement exceeds the parent. The statement names "more funds than the parent holds": not decided by it.
+	{Name: "fa-above-parent-funds-fit", On: "sub", Neutral: true, F: func(_ *mScene, _ mIdent, p client.ChannelProposal) {
+		setSplit(p.Base(), []int64{2, 4}, []int64{1000, 1000})
+	}},
+	{Name: "fa-differs-funds-fit", On: "sub", Neutral: true, F: func(_ *mScene, _ mIdent, p client.ChannelProposal) {
+		setSplit(p.Base(), []int64{2, 4}, []int64{1, 1})
+	}},
 	// virtual channel
 	{Name: "fa-differs", On: "virtual", F: func(_ *mScene, _ mIdent, p client.ChannelProposal) {
 		p.Base().FundingAgreement = channel.Balances{{mBig(5), mBig(3)}}
@@ -266,6 +300,17 @@ var propMuts = []propMut{
 		setBals(p.Base(), []int64{6, 6}) // each fits, together they exceed what the victim holds
 		p.(*client.VirtualChannelProposalMsg).IndexMaps[1] = []channel.Index{sc.vIdx, sc.vIdx}
 	}},
+	// funds above the parent's with a funding agreement that fits, and the other way round (both are
+	// "funding agreement differs from the balances" as well)
+	{Name: "funds-above-parent-own-fa-base", On: "virtual", F: func(_ *mScene, _ mIdent, p client.ChannelProposal) {
+		setSplit(p.Base(), []int64{4, 12}, []int64{4, 4})
+	}},
+	{Name: "funds-above-parent-hub-fa-base", On: "virtual", F: func(_ *mScene, _ mIdent, p client.ChannelProposal) {
+		setSplit(p.Base(), []int64{12, 4}, []int64{4, 4})
+	}},
+	{Name: "fa-above-parent-funds-fit", On: "virtual", F: func(_ *mScene, _ mIdent, p client.ChannelProposal) {
+		setSplit(p.Base(), []int64{4, 4}, []int64{1000, 1000})
+	}},
 	{Name: "funds-above-parent-own", On: "virtual", F: func(_ *mScene, _ mIdent, p client.ChannelProposal) { setBals(p.Base(), []int64{4, 12}) }},
 	{Name: "funds-above-parent-hub", On: "virtual", F: func(_ *mScene, _ mIdent, p client.ChannelProposal) { setBals(p.Base(), []int64{12, 4}) }},
 	{Name: "asset-other", On: "virtual", F: func(_ *mScene, _ mIdent, p client.ChannelProposal) { p.Base().InitBals.Assets[0] = fx.Assets[1] }},
@@ -311,7 +356,11 @@ func proposalCases() (out []mcase) {
 				if mu.C12 {
 					cat = "proposal-c12"
 				}
-				out = append(out, mcase{Name: ty.Name + "/" + mu.Name, Cat: cat, Sender: sender, Proto: mu.Proto, Mut: true,
+				var ctl func(sc *mScene) bool
+				if mu.Neutral {
+					ctl = func(sc *mScene) bool { return ty.Control(sc, sender) }
+				}
+				out = append(out, mcase{Name: ty.Name + "/" + mu.Name, Cat: cat, Sender: sender, Proto: mu.Proto, Mut: true, Neutral: mu.Neutral, Control: ctl,
 					Reduced: sender == "M" && ty.Name == "virtual" && (mu.Name == "parents-short" || mu.Name == "fa-differs"),
 					Build: func(sc *mScene) wire.Msg {
 						x := sc.id(sender)
